@@ -155,6 +155,13 @@ def gen_expr(rng, j):
     return dict(first=first, rest=rest)
 
 
+def gen_access(rng):
+    """how the command reaches the workspace (the folder, a symbolic link to it, a path through `..`, a relative path) and
+    under which of its paths the experiment wrote the absolute links of the index -- none of it changes what is selected"""
+    a = rng.choice(["direct", "direct", "symlink", "symlink", "dotdot", "relative"])
+    return dict(access=a, index_via=rng.choice(["real", "access"]) if a in ("symlink", "dotdot") else "real")
+
+
 def gen_ws(rng, small=False, links=False):
     njobs = rng.choice([0, 1, 2, 2, 3, 3, 4, 5, 6] if not small else [1, 2, 3])
     keys, jobs = set(), []
@@ -843,12 +850,13 @@ def payload_case(c):
     if c["kind"] == "near":
         return dict(kind="near", text=c["text"], job=c["job"])
     if c["kind"] == "clean":
-        return dict(kind="clean", ws=c["ws"], experiment=c["experiment"], filter=c["text"], perform=c["perform"],
+        return dict(kind="clean", access=c.get("access"), index_via=c.get("index_via"), ws=c["ws"], experiment=c["experiment"], filter=c["text"], perform=c["perform"],
                     flags=c.get("flags", []), atom_texts=c.get("atom_texts"))
     if c["kind"] == "real":
         return dict(kind="real", plan=c["plan"], experiment=c["experiment"], filter=c["text"], perform=c["perform"],
                     flags=[], atom_texts=c.get("atom_texts"))
-    return dict(kind="orphans", ws=c["ws"], clean=c["clean"], ignore_old=c["ignore_old"], show_all=c.get("show_all", False))
+    return dict(kind="orphans", ws=c["ws"], clean=c["clean"], ignore_old=c["ignore_old"], show_all=c.get("show_all", False),
+                access=c.get("access"), index_via=c.get("index_via"))
 
 
 def run_cases(c, cases, tag="r"):
@@ -924,6 +932,9 @@ def candidates(case):
             put(lambda x, i=i: x["ws"]["jobs"][i].update(tags={}))
     if case["kind"] == "clean" and case["experiment"]:
         put(lambda x: x.update(experiment=None))
+    if case.get("access") not in (None, "direct"):
+        put(lambda x: x.update(access="direct", index_via="real"))
+        put(lambda x: x.update(index_via="real"))
     return out
 
 
@@ -1035,7 +1046,7 @@ def run(c: Check):
         r = rng.random()
         exp = None if r < 0.45 else (rng.choice(w["xps"])["name"] if w["xps"] and r < 0.9 else rng.choice(XPS + [""]))
         cases.append(dict(kind="clean", ws=w, experiment=exp, expr=e, perform=rng.random() < 0.75,
-                          flags=[f for f in ("--tags", "--fullpath", "--ready") if rng.random() < 0.15]))
+                          flags=[f for f in ("--tags", "--fullpath", "--ready") if rng.random() < 0.15], **gen_access(rng)))
         if rng.random() < 0.2:                   # the filter is a text near the grammar
             while True:
                 nr = gen_near(rng, rng.choice(w["jobs"]) if w["jobs"] else gen_job(rng),
@@ -1050,7 +1061,7 @@ def run(c: Check):
     for _ in range(no):
         cases.append(dict(kind="orphans", ws=gen_ws(rng, links=rng.random() < 0.4), clean=rng.random() < 0.8,
                           ignore_old=rng.random() < 0.25,
-                          show_all=rng.random() < 0.2))
+                          show_all=rng.random() < 0.2, **gen_access(rng)))
     for x in cases:
         x.pop("ans", None)
         with_texts(rng, x)
@@ -1065,6 +1076,8 @@ def run(c: Check):
             c.count("clean:workspace-by-real-scheduler")
         kind = case["kind"]
         c.count("kind:" + kind)
+        if kind in ("clean", "orphans"):
+            c.count(f"{kind}:workspace-reached-by={case.get('access') or 'direct'},index-written-via={case.get('index_via') or 'real'}")
         e = case.get("expr")
         if kind == "near" or case.get("near"):
             lab = case["label"] if kind == "near" else case["near"]["label"]
